@@ -31,7 +31,24 @@ def idle_phase(run):
                                f"write / drain / join of {n} events answered {' '.join(got)} (expected {' '.join(want)}: 1 = all returned, then the events the handler saw; -888 = no return within 4 s)",
                        "harness_line": ln, "expected": " ".join(want), "idle": True, "rerun": "cd /verif && python3 bin/check.py C06 --replay <this file>"})
         break
-    return {"idle_probes": {"issued": len(probes), "completed_as_required": n_ok}}
+    # the MANUALLY WIRED multi-producer pattern of the module documentation: barrier from the sequencer, producer around a CLONE of it,
+    # shut down by draining the clone (harness/ds family cloneprobe); the shut-down flag must be shared between clones
+    n_clone = 0; cprobes = [(0, 3), (1, 3), (1, 0), (0, 0)]
+    if not run.violations:
+        for (block, n) in cprobes:
+            ln = f"cloneprobe {block} {n}"
+            rc, outs, err = run_lines(b, [ln], line_timeout=30)
+            run.cov["evaluations"] += 1
+            got = outs[0].split() if outs else ["<no answer>"]
+            want = ["1", str(n)]
+            if got == want:
+                n_clone += 1; continue
+            run.violation({"kind": "property-oracle-failed-on-implementation", "finding": "clone-probe",
+                           "what": f"manually wired multi-producer pipeline ({'blocking' if block else 'spinning'} wait), producer built around a clone of the sequencer: write of {n} events, "
+                                   f"drain through the clone and join of the handler thread answered {' '.join(got)} (expected {' '.join(want)}: 1 = all returned, then the events handled; -888 = no return within 4 s)",
+                           "harness_line": ln, "expected": " ".join(want), "idle": True, "rerun": "cd /verif && python3 bin/check.py C06 --replay <this file>"})
+            break
+    return {"idle_probes": {"issued": len(probes), "completed_as_required": n_ok}, "clone_probes": {"issued": len(cprobes), "completed_as_required": n_clone}}
 
 
 def main():
